@@ -345,16 +345,16 @@ def run(chk: core.Check):
     chk.assumptions += ["built-in costs: 1e-7 relative tolerance; Gaussian slices with variance at the floor are skipped and counted",
                         "multivariate log-det inequalities are not proved (numeric check only)"]
     rng = core.rng_for(chk.seed, "C06/user")
-    chk.run_stream("user", [gen_user(rng, 12) for _ in range(N)], impl_user, oracle=oracle_user, site="adapters",
+    chk.run_stream("user", core.Gen(gen_user, rng, 12, N), impl_user, oracle=oracle_user, site="adapters",
                    skip=lambda c, r: r["outcome"][5:] if r["outcome"].startswith("skip:") else None,
                    nontrivial=lambda c, r: len(c["cuts"]) >= 2,
                    describe=lambda c: {k: v for k, v in c.items() if k != "X"} | {"X[:3]": c["X"][:3]})
     rng = core.rng_for(chk.seed, "C06/builtin")
-    chk.run_stream("builtin", [gen_builtin(rng, 14) for _ in range(N // 2)], impl_builtin, oracle=oracle_builtin, skip=skip_builtin,
+    chk.run_stream("builtin", core.Gen(gen_builtin, rng, 14, N // 2), impl_builtin, oracle=oracle_builtin, skip=skip_builtin,
                    site="adapters/builtin", nontrivial=lambda c, r: r.get("outcome") == "ok" and len(r["c3"]) >= 2,
                    describe=lambda c: {k: v for k, v in c.items() if k != "X"} | {"X[:3]": c["X"][:3]})
     rng = core.rng_for(chk.seed, "C06/refit")
-    chk.run_stream("refit", [gen_refit(rng, 10) for _ in range(N // 3)], impl_refit, oracle=oracle_refit, site="adapters/refit",
+    chk.run_stream("refit", core.Gen(gen_refit, rng, 10, N // 3), impl_refit, oracle=oracle_refit, site="adapters/refit",
                    skip=lambda c, r: r["outcome"][5:] if r["outcome"].startswith("skip:") else None,
                    nontrivial=lambda c, r: r.get("outcome") == "ok", describe=lambda c: {k: v for k, v in c.items() if k not in ("X1", "X2")})
     return chk.finish(trusted_extra=["the translator harness/translate.py, validated numerically in the C01 check"])
